@@ -138,6 +138,11 @@ func addStats(o *WorkerOut, res *RunResult) {
 		f["F7_tiny_queue_configured"]++
 	}
 	f["F11_map_order_permuted"] += int64(res.Stats.MapPermuted)
+	for _, w := range res.Prog.Cfg.WallSteps {
+		if time.Duration(w[0]) <= res.Stats.SimTime {
+			f["F12_wall_clock_step"]++
+		}
+	}
 	p := o.Probes
 	p["overlap_passes"] += int64(res.Probes.OverlapPasses)
 	p["contention_switch"] += int64(res.Stats.ContentionHit)
